@@ -18,6 +18,7 @@ import Proofs.Lemmas.XmlTokens
 import Proofs.Lemmas.XmlOrdered
 import Proofs.Lemmas.XmlExpected
 import Proofs.Lemmas.XmlFacts
+import Proofs.Lemmas.ChainE2E
 
 namespace Xsel.C09
 open Xsel Xsel.Xml Xsel.XmlL Xsel.Store
@@ -236,5 +237,60 @@ def unbindXmlDoc : XNodes := ofList
 
 example : Spec.describe (Store.build (Xml.events (Xml.docTokens unbindXmlDoc)))
     ≠ Xml.dataModel unbindXmlDoc := by decide
+
+end Xsel.C09
+
+/-! ### end to end: parse, build, query (Proofs/Lemmas/ChainE2E.lean) -/
+
+namespace Xsel.C09
+open Xsel Xsel.Xml Xsel.XmlL Xsel.Store
+
+/-- **xml_query_refines_spec** — a query on the tree ReadXml builds for a well-formed
+    namespace-conformant document evaluates as the XPath 1.0 specification says: the tree
+    satisfies the Cursor contract (`readxml_refines`), hence (`C02.run_refines_spec'`) `exec.Exec`
+    from its root returns the specification's value up to the listing order of a node-set, or
+    both fail.  (`Spec.runKF`: with the recorded `round` deviation; `…_noRound` below: without.) -/
+theorem xml_query_refines_spec (top : XNodes) (h : WFDoc top)
+    (env : Env) (henv : EnvOk (Store.build (Xml.events (Xml.docTokens top))) env) (e : Expr)
+    (hsum : sumSafe true e = true) (hb : prefixesBound env e = true) :
+    let a := Store.build (Xml.events (Xml.docTokens top))
+    wfb a = true ∧ Spec.describe a = Xml.dataModel top ∧
+      Res.Equiv (Model.run a env 0 e) (Spec.runKF a env 0 e) :=
+  ⟨(readxml_refines top h).1, (readxml_refines top h).2,
+    (Chain.xml_query_refines_spec top h env henv e hsum hb).2⟩
+
+theorem xml_query_refines_spec_noRound (top : XNodes) (h : WFDoc top)
+    (env : Env) (henv : EnvOk (Store.build (Xml.events (Xml.docTokens top))) env) (e : Expr)
+    (hsum : sumSafe true e = true) (hb : prefixesBound env e = true)
+    (hnr : Chain.noRound e = true) :
+    let a := Store.build (Xml.events (Xml.docTokens top))
+    Res.Equiv (Model.run a env 0 e) (Spec.run a env 0 e) :=
+  Chain.xml_query_refines_spec_noRound top h env henv e hsum hb hnr
+
+/-- **stream_query_refines_spec** — the same for the tree built from ANY event stream that honours
+    the Parser contract (`StoreL.Ordered`) -/
+theorem stream_query_refines_spec (evs : List Ev) (ho : StoreL.Ordered evs)
+    (env : Env) (henv : EnvOk (Store.build evs) env) (e : Expr)
+    (hsum : sumSafe true e = true) (hb : prefixesBound env e = true) :
+    wfb (Store.build evs) = true ∧
+      Res.Equiv (Model.run (Store.build evs) env 0 e) (Spec.runKF (Store.build evs) env 0 e) :=
+  Chain.stream_query_refines_spec evs ho env henv e hsum hb
+
+/-- the events of the documented JSON trees contain no namespace or attribute event, hence honour
+    the Parser contract -/
+theorem json_events_ordered (vs : List JVal) : StoreL.Ordered (vs.flatMap Json.eventsOf) :=
+  Chain.json_events_ordered vs
+
+/-- **json_query_refines_spec** — ReadJson feeds the store exactly the events of the documented
+    `#obj`/`#arr` trees (C16 `json_refines`); the tree built from them satisfies the Cursor
+    contract and a query on it evaluates as the specification says -/
+theorem json_query_refines_spec (vs : List JVal)
+    (env : Env) (henv : EnvOk (Store.build (vs.flatMap Json.eventsOf)) env) (e : Expr)
+    (hsum : sumSafe true e = true) (hb : prefixesBound env e = true) :
+    Json.adapter (vs.flatMap Json.tokensOf) = some (vs.flatMap Json.eventsOf) ∧
+    wfb (Store.build (vs.flatMap Json.eventsOf)) = true ∧
+    Res.Equiv (Model.run (Store.build (vs.flatMap Json.eventsOf)) env 0 e)
+      (Spec.runKF (Store.build (vs.flatMap Json.eventsOf)) env 0 e) :=
+  Chain.json_query_refines_spec vs env henv e hsum hb
 
 end Xsel.C09
